@@ -154,6 +154,8 @@ class Ev:
             raise Unsupported("list attribute %s" % a)
         if base.ty.k in ("ref", "none"):
             if base.ty.k == "none":
+                if self.spec:
+                    raise Unsupported("contract text reads .%s of a value typed None: declare the local's type in the contract" % a)
                 self.need(z3.BoolVal(False), "none-deref", e)
                 raise PathEnd()
             K, fty = self.ct.find_field(base.ty.cls, a)
